@@ -26,4 +26,5 @@ type CodeGenContext struct {
 	SourceFileName   string   // SourceFileName フィールドを追加
 	VS               *variantstack.VariantStack
 	BitMode          cpu.BitMode
+	TooFarBranches   []int // short 形式と仮定したが rel8 に収まらなかった分岐の番号
 }
